@@ -84,15 +84,18 @@ bytes present, header byte 4 (PType) is 0 -/
 def frameOk (inp : Bytes) : Bool :=
   !(decide (inp.length < 14)) && ((inp.drop 4).length == beDec (inp.take 4)) && (inp.getD 8 0 == 0)
 
+/-- the message text: exactly one item with nothing left over -/
+def decodeText (text : Bytes) : Option Tmpl :=
+  match decItem (text.length + 1) text with
+  | some (t, []) => some t
+  | _ => none
+
 /-- SType 0: the text is empty, or exactly one item with nothing left over -/
 def decodeData (inp : Bytes) : Option HMsg :=
   let h := (inp.drop 4).take 10
   let text := inp.drop 14
   let item? : Option Tmpl :=
-    if beDec (inp.take 4) == 10 then some .empty
-    else match decItem (text.length + 1) text with
-      | some (t, []) => some t
-      | _ => none
+    if beDec (inp.take 4) == 10 then some .empty else decodeText text
   match item? with
   | none => none
   | some item =>
